@@ -698,7 +698,7 @@ theorem normalize_cross_last_limb {bits ab rb rs : Nat} {H : Int} {a : List Int}
       |e| ≤ 2 ^ (ab * a.length + (-off).toNat) :=
   (normalize_cross_value c off h).2.2.1
 
-private theorem ctx15_25 : CrossCtx 64 15 25 2 0 (2 ^ 61) [2 ^ 61 - 12345, -(2 ^ 61) + 98765, 12345] :=
+theorem crossCtx_example_offsets : CrossCtx 64 15 25 2 0 (2 ^ 61) [2 ^ 61 - 12345, -(2 ^ 61) + 98765, 12345] :=
   ⟨Or.inl rfl, by norm_num, by norm_num, by norm_num, by norm_num, by norm_num, by norm_num,
     by intro x hx; simp at hx; rcases hx with rfl | rfl | rfl <;> norm_num⟩
 
@@ -710,28 +710,28 @@ example : ∃ out, normalizeCrossCoef 64 25 2 (-22) 15 [2 ^ 61 - 12345, -(2 ^ 61
       (15 * 3 + (-(-22) : Int).toNat) := by
   obtain ⟨out, h⟩ : ∃ out, normalizeCrossCoef 64 25 2 (-22) 15 [2 ^ 61 - 12345, -(2 ^ 61) + 98765, 12345] = some out :=
     Option.isSome_iff_exists.mp (by decide +kernel)
-  exact ⟨out, h, (normalize_cross_value ctx15_25 (-22) h).2.2.1⟩
+  exact ⟨out, h, (normalize_cross_value crossCtx_example_offsets (-22) h).2.2.1⟩
 
 example : ∃ out, normalizeCrossCoef 64 25 2 (-70) 15 [2 ^ 61 - 12345, -(2 ^ 61) + 98765, 12345] = some out ∧
     TorusNear (valI 25 out) (25 * 2) (valI 15 [2 ^ 61 - 12345, -(2 ^ 61) + 98765, 12345] * 2 ^ (-70 : Int).toNat)
       (15 * 3 + (-(-70) : Int).toNat) := by
   obtain ⟨out, h⟩ : ∃ out, normalizeCrossCoef 64 25 2 (-70) 15 [2 ^ 61 - 12345, -(2 ^ 61) + 98765, 12345] = some out :=
     Option.isSome_iff_exists.mp (by decide +kernel)
-  exact ⟨out, h, (normalize_cross_value ctx15_25 (-70) h).2.2.1⟩
+  exact ⟨out, h, (normalize_cross_value crossCtx_example_offsets (-70) h).2.2.1⟩
 
 example : ∃ out, normalizeCrossCoef 64 25 2 19 15 [2 ^ 61 - 12345, -(2 ^ 61) + 98765, 12345] = some out ∧
     TorusNear (valI 25 out) (25 * 2) (valI 15 [2 ^ 61 - 12345, -(2 ^ 61) + 98765, 12345] * 2 ^ (19 : Int).toNat)
       (15 * 3 + (-19 : Int).toNat) := by
   obtain ⟨out, h⟩ : ∃ out, normalizeCrossCoef 64 25 2 19 15 [2 ^ 61 - 12345, -(2 ^ 61) + 98765, 12345] = some out :=
     Option.isSome_iff_exists.mp (by decide +kernel)
-  exact ⟨out, h, (normalize_cross_value ctx15_25 19 h).2.2.1⟩
+  exact ⟨out, h, (normalize_cross_value crossCtx_example_offsets 19 h).2.2.1⟩
 
 example : ∃ out, normalizeCrossCoef 64 25 2 1000 15 [2 ^ 61 - 12345, -(2 ^ 61) + 98765, 12345] = some out ∧
     TorusEq (valI 25 out) (25 * 2) (valI 15 [2 ^ 61 - 12345, -(2 ^ 61) + 98765, 12345] * 2 ^ (1000 : Int).toNat)
       (15 * 3 + (-1000 : Int).toNat) := by
   obtain ⟨out, h⟩ : ∃ out, normalizeCrossCoef 64 25 2 1000 15 [2 ^ 61 - 12345, -(2 ^ 61) + 98765, 12345] = some out :=
     Option.isSome_iff_exists.mp (by decide +kernel)
-  exact ⟨out, h, (normalize_cross_value ctx15_25 1000 h).2.2.2 (by decide)⟩
+  exact ⟨out, h, (normalize_cross_value crossCtx_example_offsets 1000 h).2.2.2 (by decide)⟩
 
 /-- the digits the four examples compute, and two roundings in the gap region (`-2^-24` resp. `-2^-25` at 50 bits;
 `-1/32` into one radix-2^4 limb rounds to `-1/16`, within one unit) -/
@@ -775,7 +775,7 @@ theorem big_normalize128_value {ab rb rs : Nat} {H : Int} {a : List Int}
   bigNormalizeCoef128_value c off h
 
 /-- i128 context: limbs up to `2^120`, radix 2^20 → 2^12 -/
-private theorem ctx128 : CrossCtx 128 20 12 3 0 (2 ^ 120) [2 ^ 120 - 987654321, -5, 77] :=
+theorem crossCtx_example128 : CrossCtx 128 20 12 3 0 (2 ^ 120) [2 ^ 120 - 987654321, -5, 77] :=
   ⟨Or.inr rfl, by norm_num, by norm_num, by norm_num, by norm_num, by norm_num, by norm_num,
     by intro x hx; simp at hx; rcases hx with rfl | rfl | rfl <;> norm_num⟩
 
@@ -783,7 +783,7 @@ example : ∃ out, bigNormalizeCoef128 12 3 (-33) 20 [2 ^ 120 - 987654321, -5, 7
     TorusNear (valI 12 out) (12 * 3) (valI 20 [2 ^ 120 - 987654321, -5, 77] * 2 ^ (-33 : Int).toNat) (20 * 3 + (-(-33) : Int).toNat) := by
   obtain ⟨out, h⟩ : ∃ out, bigNormalizeCoef128 12 3 (-33) 20 [2 ^ 120 - 987654321, -5, 77] = some out :=
     Option.isSome_iff_exists.mp (by decide +kernel)
-  exact ⟨out, h, (big_normalize128_value ctx128 (-33) h).2.2.1⟩
+  exact ⟨out, h, (big_normalize128_value crossCtx_example128 (-33) h).2.2.1⟩
 
 /-! ### fused add / sub, different radices (and the general FFT64 fall-back) -/
 
@@ -841,7 +841,7 @@ example : ∃ res', bigNormalizeAssignCoef128 .sub 12 (-33) 20 [2 ^ 120 - 987654
       (-(valI 20 [2 ^ 120 - 987654321, -5, 77] * 2 ^ (-33 : Int).toNat)) (20 * 3 + (-(-33) : Int).toNat) := by
   obtain ⟨r, h⟩ : ∃ r, bigNormalizeAssignCoef128 .sub 12 (-33) 20 [2 ^ 120 - 987654321, -5, 77] [2 ^ 62, -(2 ^ 62), 9] = some r :=
     Option.isSome_iff_exists.mp (by decide +kernel)
-  exact ⟨r, h, big_normalize_sub_value128_cross (res := [2 ^ 62, -(2 ^ 62), 9]) ctx128 (by decide) (-33)
+  exact ⟨r, h, big_normalize_sub_value128_cross (res := [2 ^ 62, -(2 ^ 62), 9]) crossCtx_example128 (by decide) (-33)
     (by intro x hx; simp at hx; rcases hx with rfl | rfl | rfl <;> norm_num) h⟩
 
 /-! ### termination of the cross-radix loop: the routines always return -/
